@@ -7,14 +7,18 @@ CFG = {
     "theory_files": ["theories/Base/Bytes.v", "theories/Base/BytesProofs.v",
                      "theories/Formats/Splat.v", "theories/Formats/SplatProofs.v",
                      "theories/Formats/Spz.v", "theories/Formats/SpzProofs.v", "theories/Formats/SplatReal.v", "theories/Formats/SplatPlyLink.v",
-                     "theories/Formats/SplatInterval.v", "theories/Formats/SpzExtra.v", "theories/Formats/SpzExtraProofs.v"],
+                     "theories/Formats/SplatInterval.v", "theories/Formats/SplatExtra.v", "theories/Formats/SpzExtra.v",
+                     "theories/Formats/SpzExtraProofs.v"],
     "level_text": "Coq theorems about byte-level models of splat.Write/Read (32-byte records, exact rational "
                   "quantisers/dequantisers, count law, round trip within one 8-bit step, prefix behaviour, the pinned "
                   "rotation wrap refuted) and of spz.Read (header, planar arrays, 24-bit sign extension, half floats, "
                   "SH interleaving) against a reference encoder, for every cloud / header / byte pattern; the models "
                   "are tied to the Go code on every run by evaluating them (vm_compute, exact rational arithmetic on "
                   "the dyadic value of every float64) on the implementation's inputs and outputs, plus a direct "
-                  "oracle on the implementation's output",
+                  "oracle on the implementation's output; round 4: the scale clause for Flocq's binary32 rounding with no "
+                  "hypothesis on the rounding (|ln(round32(exp s)) - s| <= 2^-23 for -87 <= s <= 88, libm error as an explicit "
+                  "term), the opacity clause for the real sigmoid / logit, unit norm of SPZ rotations with the real sqrt, "
+                  "spz.ReadHeader, splat.Write's guards, the empty SplatPly cloud",
     "level_note": "Trusted: Coq kernel + vm_compute; hand-written models tied by differential correspondence only "
                   "(generator quality bounds it); exp/log/sigmoid/sqrt are Go float functions: Section variables in the "
                   "theorems, tolerance checks harness-side (sqrt is checked in Coq through w*w); gzip is Go's "
@@ -22,9 +26,16 @@ CFG = {
                   "proved on C04's writer model and C08's reader model (Formats/SplatPlyLink.v imports them read-only); "
                   "those two models are tied to the Go code by the C04/C08 checks and here per case; one theorem (splat_scale_real, the exp/log "
                   "scale clause) is stated over Coq's Reals and therefore shows the standard library's real-number "
-                  "axioms under Print Assumptions, every other theorem is closed under the global context",
+                  "axioms under Print Assumptions; the round-4 theorems of module RealFloat are over Reals as well, and two of "
+                  "them (splat_scale_float32, splat_numeric_facts) have numeric side conditions closed by the Interval tactic "
+                  "(software floats, i_prec 64) and therefore also show the standard library's Uint63.*_spec axioms of the "
+                  "kernel's machine integers; every other theorem is closed under the global context. Harness-side metamorphic "
+                  "checks (same result through six io.Reader shapes and four gzip levels, results unchanged by later calls, input "
+                  "mesh unchanged, second write identical, error on a failing destination, concurrent = sequential) compare the "
+                  "implementation with itself and are not modelled",
     "technique": "Coq proof (induction over record lists; Q/Z inequalities for the quantisers; nth/flat_map layout "
-                 "lemmas for the planar arrays) + vm_compute correspondence check",
+                 "lemmas for the planar arrays; Flocq relative-error theorem + Interval for the binary32 scale clause) + "
+                 "vm_compute correspondence check",
     "design_ref": "DESIGN.md §4 C15, §5 entry 16",
     "n_quick": 256, "n_thorough": 6000,
     "rule": "random splat clouds (0-12 splats; rotations incl. identity, components exactly +-1, k/128, k/1024, "
@@ -39,12 +50,26 @@ CFG = {
             "properties through ply.SplatPly.Write + ply.ReadMesh; large synthetic clouds (4095, 4096, 4097, 8193, 9000, 65537 points: around powers of two and block "
             "sizes) through every codec (.splat write+read, SPZ every version x degree, SplatPly write+ReadMesh), records "
             "derived from (n, seed) on both sides, compared by count and order-sensitive 63-bit fingerprints of per-field "
-            "codes; distinct by input; non-trivial = at least one splat",
+            "codes; round 4: SPZ rotation triples over the corner product {0,1,127,128,129,254,255}^3 and next to the unit "
+            "sphere on both sides, flags/reserved grid per version x degree, 12 sizes at which the uncompressed stream meets "
+            "the inflater's 32 KiB window and its multiples, gzip level chosen by stream length; spz.ReadHeader on valid / "
+            "invalid / short headers; spz.Load through a temp file; every decode repeated through six reader shapes (1, 7, 31 "
+            "bytes per Read, growing chunks, data together with io.EOF); conversions spz>splat, spz>ply, splat>ply, ply>splat "
+            "on the mesh the first codec's reader returned; splat.Write on meshes of other topologies / with missing "
+            "attributes / with foreign attributes; float32 overflow, subnormal and underflow positions; failing destination "
+            "writers; 18 concurrent codec calls; distinct by input; non-trivial = at least one splat",
     "trusted": ["math.Exp/math.Log/sigmoid are float functions: the scale word and the opacity byte's pre-image are "
                 "computed by Go and passed to the model; scale and opacity round trips are tolerance checks in the "
                 "harness (2^-23 absolute on the log-scale, 1/255 in the sigmoid domain)",
-                "compress/gzip (the harness gzips the reference stream; the model starts after decompression)"],
-    "modelled": ["little-endian float32/uint32 words, bitlib.Writer.Float32/Byte, io.ReadFull, binary.Read of the SPZ "
+                "compress/gzip (the harness gzips the reference stream; the model starts after decompression)",
+                "Go's float32() conversion is IEEE round-to-nearest-even binary32 (= Flocq's round radix2 (FLT_exp (-149) 24) "
+                "ZnearestE below the overflow threshold) and math.Exp / math.Log meet a relative / absolute error bound: "
+                "hypotheses e, e' of splat_scale_float32's second conjunct",
+                "io.ReadFull, bufio, bitlib.Writer error latching: not modelled, exercised through reader shapes and failing "
+                "writers"],
+    "modelled": ["splat.Write's checks before the record loop (attribute length 0, topology, five required attributes: "
+                 "Formats/SplatExtra.v write_guard), spz.ReadHeader (Formats/SpzExtra.v read_header)",
+                 "little-endian float32/uint32 words, bitlib.Writer.Float32/Byte, io.ReadFull, binary.Read of the SPZ "
                  "header (modelled byte for byte, checked by the correspondence)",
                  "IEEE rounding float64->float32 is performed by Go and passed to the model as bit patterns",
                  "float64 evaluation of c*SH_C0+0.5, alpha*255, r*128+128 may differ from the exact rational by "
